@@ -15,6 +15,7 @@ import H263V.Thm.C12
 import H263V.Lemmas.SorensonPicture
 import H263V.Lemmas.GatherSpec
 import H263V.Lemmas.StreamAny
+import H263V.Lemmas.ReconSpec
 namespace H263V.Thm.C03
 open H263V H263V.Gather H263V.Mv H263V.Spec.Vlc
 
@@ -135,6 +136,34 @@ theorem non_inter_stores_zero_vector (hdr : PicHdr) (dims : Option (Nat × Nat))
       subst_vars
       rfl
 
+
+open H263V.State H263V.Lemmas.GatherPic H263V.Lemmas.ReconSpec in
+/-- **Every sample of a predicted picture** = motion-compensated prediction + residual.  With a reference `r` of the picture's
+dimensions, whenever the reconstruction step returns: planes keep their sizes, and sample `k` of the luma plane is
+`clamp 0..255 (residual of the covering 8x8 block + P)` where `P` is, for a sample inside an INTER macroblock, the half-sample
+interpolation (`predSample`: upward rounding, edge-extended reference) of `r` at the sample's position displaced by the vector of
+the 8x8 block containing it (`mvSel`: the macroblock's vector, or the block's own one of four), and the plane's initial value (0)
+inside INTRA macroblocks; likewise both chroma planes with the vector `mvChroma` = the four luma vectors summed and rounded by the
+sixteenth-position table.  Not-coded macroblocks are INTER macroblocks with zero vectors and `Zero` residual blocks: exact copies. -/
+theorem predicted_picture_samples (types : Array MbType) (r : DecPic) (mvs : Array Mv4) (m w hh : Nat) (pic out : DecPic)
+    (lumaLv cbLv crLv : Array Rle.Dct)
+    (hdims : r.fmt.dims = some (w, hh)) (hw : 1 ≤ w) (hc : 1 ≤ r.chromaSpr) (hcs : pic.chromaSpr = r.chromaSpr) (hm : m ≠ 0)
+    (hl : pic.luma.size = r.luma.size) (hb : pic.cb.size = r.cb.size) (hr : pic.cr.size = r.cr.size)
+    (h : reconstruct types (some r) mvs m w pic lumaLv cbLv crLv = .ok out) :
+    (out.luma.size = r.luma.size ∧ ∀ k, out.luma.getD k 0 =
+      idctVal lumaLv (m * 2) w r.luma.size k (lumaAt types r mvs m w pic.luma k)) ∧
+    (out.cb.size = r.cb.size ∧ ∀ k, out.cb.getD k 0 =
+      idctVal cbLv m r.chromaSpr r.cb.size k (chromaAt types r.cb r.chromaSpr mvs m pic.cb k)) ∧
+    (out.cr.size = r.cr.size ∧ ∀ k, out.cr.getD k 0 =
+      idctVal crLv m r.chromaSpr r.cr.size k (chromaAt types r.cr r.chromaSpr mvs m pic.cr k)) :=
+  reconstruct_pointwise types r mvs m w hh pic out lumaLv cbLv crLv hdims hw hc hcs hm hl hb hr h
+
+open H263V.Lemmas.GatherPic H263V.Lemmas.ReconSpec in
+/-- a zero vector predicts the co-located reference sample (not-coded macroblocks, which also carry no residual, are exact copies
+of the co-located reference macroblock) -/
+theorem zero_vector_copies (px : Array Nat) (spr : Nat) (hs : 1 ≤ spr) (k : Nat) (hk : k / spr < px.size / spr) :
+    predSample px spr (0, 0) k = px.getD k 0 :=
+  predSample_zero px spr hs k hk
 
 open H263V.Lemmas.GatherSpec in
 /-- **Block level, all paths.**  For every reference plane, every row length ≥ 1, every block position (incl. blocks cropped by
